@@ -250,6 +250,8 @@ def run_case(ns, mon, c):
             for i in range(c["n"]):
                 kind = int(rng.integers(4))
                 layers.append([lambda: nn.Linear(w_, w_), lambda: nn.Tanh(), lambda: nn.Sigmoid(), lambda: nn.LeakyReLU(0.2)][kind]())
+            if layers and rng.random() < 0.5:
+                layers.insert(int(rng.integers(len(layers) + 1)), layers[int(rng.integers(len(layers)))])      # the same module object at two positions
             for l in layers:
                 for p_ in l.parameters():
                     p_.data = rng.standard_normal(p_.shape)
